@@ -102,7 +102,14 @@ class CollationManager(context_class_base):
         if collation is None:
             msg = 'collation cannot be an empty sequence'
             raise xpath_error('XPTY0004', msg, self.token)
-        elif not urlsplit(collation).scheme and token is not None:
+
+        try:
+            is_relative = not urlsplit(collation).scheme
+        except ValueError:
+            msg = f"Unsupported collation {collation!r}"
+            raise xpath_error('FOCH0002', msg, self.token) from None
+
+        if is_relative and token is not None:
             # Collation is a relative URI: try to complete with the static base URI
             base_uri = token.parser.base_uri
             if base_uri:
